@@ -59,6 +59,8 @@ type Recorder struct {
 	waitTO bool
 	// event budget: generated programs emit < 3000 events; a run that exceeds the
 	// budget is cut short (a logical-step bound, not a time bound)
+	// Base: goroutine count before the run started (for gsettle)
+	Base          int
 	cancel        func()
 	overflow      bool
 	selfCancelled bool
@@ -157,6 +159,25 @@ func (r *Recorder) Bind(e *env.Env) {
 		r.gtrace = append(r.gtrace, "hg "+ank.Render(rest))
 		r.mu.Unlock()
 	})
+	// hgp: a Go function meant to be started with `go` that records on the goroutine trace
+	// and then panics: the goroutine ends, its spawner must not notice
+	e.Define("hgp", func(k interface{}) {
+		r.mu.Lock()
+		r.gtrace = append(r.gtrace, "hgp "+ank.Render(k))
+		r.mu.Unlock()
+		panic(errors.New("host failure on a goroutine"))
+	})
+	// gsettle: waits until the goroutines the script started have ended (bounded; a
+	// barrier for the programs that use hgp, no event)
+	e.Define("gsettle", func() {
+		for i := 0; i < 4000 && runtime.NumGoroutine() > r.Base; i++ {
+			if i < 50 {
+				runtime.Gosched()
+			} else {
+				time.Sleep(200 * time.Microsecond)
+			}
+		}
+	})
 	e.Define("gdone", func() { r.done <- struct{}{} })
 	e.Define("gwait", func(n interface{}) {
 		cnt, _ := n.(int64)
@@ -254,6 +275,7 @@ func Run(src string) Real {
 	rec.cancel = cancel
 	c0 := cpuSeconds()
 	base := runtime.NumGoroutine()
+	rec.Base = base
 	o := ank.ExecCtx(ctx, e, src)
 	settled := waitGoroutines(base)
 	real := finish(o, rec, ctx)
@@ -276,6 +298,7 @@ func RunTreeWatchdog(stmt ast.Stmt, watchdog time.Duration, settle bool) Real {
 	rec.cancel = cancel
 	c0 := cpuSeconds()
 	base := runtime.NumGoroutine()
+	rec.Base = base
 	o := ank.RunCtx(ctx, e, stmt)
 	settled := !settle || waitGoroutines(base)
 	real := finish(o, rec, ctx)
